@@ -60,7 +60,8 @@ def step (n : Now) : Event → Now
   | .resume => n
   | .restart => { n with clear := n.clear + 1, enabled := fun _ => true }
   | .reset => { n with total := n.total + 1, clear := 0, gen := bump n.gen .null, enabled := fun _ => true }
-  | .clear => { n with gen := bump (bump n.gen .owner) .endorsement, enabled := setEn (setEn n.enabled .owner true) .endorsement true }
+  -- TPM2_Clear also sets gr.clearCount (with resetCount and restartCount) to 0
+  | .clear => { n with clear := 0, gen := bump (bump n.gen .owner) .endorsement, enabled := setEn (setEn n.enabled .owner true) .endorsement true }
   | .changeEPS => { n with gen := bump n.gen .endorsement, enabled := setEn n.enabled .endorsement true }
   | .changePPS => { n with gen := bump n.gen .platform }
   | .control h v => { n with enabled := setEn n.enabled h v }
